@@ -49,7 +49,7 @@ class FnSpec:
         self.attrs = attrs        # attributes inserted before the fn (e.g. #[verifier::...])
 
 
-PURE_LOG = {"as_raw", "display", "to_string", "to_str", "unwrap_or_default", "len", "as_str", "Some", "code"}
+PURE_LOG = {"as_raw", "display", "to_string", "to_str", "unwrap_or_default", "len", "as_str", "Some", "code", "as_secs", "identifier_list", "get_id"}
 GHOST_PARAM = "Tracked(w): Tracked<&mut World>"
 GHOST_ARG = "Tracked(&mut *w)"
 
@@ -244,7 +244,7 @@ class Piece:
                 k = close
             k += 1
         # T-LOG (2): LOGGER.trace|debug|info|warn(&format!(..)) through the HasLogger trait
-        PURE = {"as_raw", "display", "to_string", "to_str", "unwrap_or_default", "len", "as_str", "Some", "code"}
+        PURE = PURE_LOG
         k = kb
         while k < k1:
             t = toks[k]
@@ -375,12 +375,14 @@ class Piece:
         for rw in fs.rewrites:
             rule, pat, repl = rw[0], rw[1], rw[2]
             want = rw[3] if len(rw) > 3 else 1
-            ms = list(re.finditer(pat, ftext, re.S))
+            wstart = toks[kf].start
+            wtext = self.sf.text[wstart:fend]
+            ms = list(re.finditer(pat, wtext, re.S))
             if want is not None and len(ms) != want:
                 raise Undecided(f"{fn.name}: rewrite {rule} pattern matched {len(ms)} times, expected {want}")
             for m in ms:
                 new = m.expand(repl) if isinstance(repl, str) else repl(m)
-                self._add(fstart + m.start(), fstart + m.end(), new, rule)
+                self._add(wstart + m.start(), wstart + m.end(), new, rule)
         # ghost arguments at call sites
         self._ghost_calls(kb, k1, fn.name)
 
